@@ -131,7 +131,8 @@ class Endpoint:
         return data, frames
 
     def adversary_frame(self, f):
-        if f.get('t') == 'SET' and f.get('ack') and self.hts_pending:
+        is_ack = (f.get('t') == 'SET' and f.get('ack')) or (f.get('t') == 'RAW' and f.get('typ') == 4 and f.get('fl', 0) & 1 and f.get('len') == 0)
+        if is_ack and self.hts_pending:
             v = self.hts_pending.pop(0)
             if v is not None:
                 self.adv.enc.header_table_size = v
@@ -282,6 +283,8 @@ class Session:
     def other(self, x):
         return 's' if x == 'c' else 'c'
 
+    want_sizes = False
+
     def _finish(self, x, res, evs, with_q=True):
         ep = self.eps[x]
         try:
@@ -292,6 +295,11 @@ class Session:
             self._enqueue(self.other(x), data, frames, ep)
         self.last_raw[x] = (data, ep.obs.raw)
         self.digest.update(x.encode() + len(data).to_bytes(4, 'big') + data)
+        if self.want_sizes:
+            for f in frames:
+                if '_sizes' in f:
+                    f['sizes'] = f['_sizes']
+        self.last_block_lens = [f['_bl'] for f in frames if '_bl' in f]
         o = {'r': res, 'o': strip_private(self._public(frames)), 'e': evs}
         if with_q:
             o['q'] = ep.queries(self.qsids)
@@ -341,6 +349,7 @@ class Session:
         a = s['a']
         x = s['x']
         ep = self.eps[x]
+        self.want_sizes = a == 'call' and bool(s['c'].get('sz'))
         if a == 'call':
             try:
                 ret = ep.call(s['c'])
